@@ -4,7 +4,10 @@ One case = one booted machine (real Game / Attract / Tilt modes, real EventManag
 devices: balls are drained by posting the real `ball_drain` relay event) playing 1-3 generated games.  In ~40 % of
 the cases `game: balls_per_game` is a dynamic template (operator setting `settings.balls_per_game` or machine variable
 `machine.c06_bpg`) whose value is changed between the games played on the same booted machine; the reference
-automaton takes balls_per_game as it evaluates when each game starts.  Requests
+automaton takes balls_per_game as it evaluates when each game starts.  In ~35 % of the cases the playfield is
+PHYSICAL (as in MPF's own MpfFakeGameTestCase: playfield.add_ball puts a ball on it, a drain takes the unsaved balls
+off it), so a ball ended by request stays on the playfield, the next ball start has to wait for it
+(wait_for_empty_playfields_on_ball_start) and must go on within a bounded time once it has drained.  Requests
 (drain, saved drain, balls added to play, extra-ball award, player add with/without denial, end_ball, end_game,
 slam tilt, tilt) are injected
   * from a mid-priority handler of a chosen occurrence of each lifecycle event (so they land inside every gap,
@@ -54,11 +57,16 @@ ASSUMPTIONS = [
     "a new game is requested only >= 1 virtual second after game_ended; the first automatic player add is never denied",
     "queue holds (0-2.5 s) are placed on the six lifecycle queue events only; player_adding is never held (it is not "
     "one of the lifecycle events the statement quantifies over), requests are still injected from inside it",
-    "no ball devices: add_ball on the playfield is a no-op, num_balls_known is fixed per case (1-4)",
+    "no ball devices; num_balls_known is fixed per case (1-4). Cases without a physical playfield: add_ball is a "
+    "no-op and drains of balls that do not exist are posted too (clamp). Cases with a physical playfield: add_ball "
+    "/ balls-added-to-play put balls on it, only balls that are on it can drain, saved balls stay on it, tilt and "
+    "slam tilt are not generated (Tilt waits for drain-tagged ball devices, which do not exist here)",
+    "physical playfield: once the playfield is empty and the handlers of ball_will_start are done, ball_starting "
+    "must be dispatched within 5 virtual seconds (the game polls once per second)",
     "a dynamic balls_per_game (setting / machine variable) is only changed while no game is active (>= 1 s after "
     "game_ended, before the start request); each game must use the value configured when it starts",
 ]
-HORIZONS = {"ball_end_s": 1e-6, "final_drain_step_s": 3, "after_end_settle_s": 1, "max_queue_hold_s": 2.5}
+HORIZONS = {"ball_end_s": 1e-6, "ball_start_after_playfield_empty_s": 5.0, "final_drain_step_s": 3, "after_end_settle_s": 1, "max_queue_hold_s": 2.5}
 TIERS = {
     "quick": {"cases": 1600, "batch": 25, "case_timeout": 60},
     "thorough": {"cases": 40000, "batch": 250, "case_timeout": 120},
@@ -66,11 +74,13 @@ TIERS = {
 MIN_EVALS = {"quick": {"grammar": 90000, "turn_order": 6000, "ball_number": 6000, "extra_ball": 7000, "args": 60000,
                        "ball_end_cause": 7000, "ball_end_progress": 7000, "game_end_legit": 1600,
                        "end_request_honoured": 6000, "bip_range": 500000, "after_end": 2400, "nesting": 90000,
-                       "game_progress": 1600, "bpg_change": 400},
+                       "game_progress": 1600, "bpg_change": 400,
+                       "ball_start_progress": 600},
              "thorough": {"grammar": 2000000, "turn_order": 130000, "ball_number": 130000, "extra_ball": 150000,
                           "args": 1300000, "ball_end_cause": 150000, "ball_end_progress": 150000,
                           "game_end_legit": 36000, "end_request_honoured": 130000, "bip_range": 10000000,
-                          "after_end": 50000, "nesting": 2000000, "game_progress": 36000, "bpg_change": 10000}}
+                          "after_end": 50000, "nesting": 2000000, "game_progress": 36000, "bpg_change": 10000,
+                          "ball_start_progress": 15000}}
 SHRINK_KEYS = ["hooks", "holds", "timeline"]
 
 _LC = [
@@ -139,12 +149,20 @@ def gen_case(rng, tier, index):
         while len(vals) < case["games"]:
             vals.append(rng.choice([v for v in (1, 2, 3, 4, 5) if v != vals[-1]] + [vals[-1]]))
         case["bpg"] = vals
+    case["pf_mode"] = rng.random() < 0.35
     for g in range(case["games"]):
         for _ in range(rng.choice([0, 0, 1, 1, 2, 3])):
             case["timeline"].append([g, rng.choice([None, 0, 0.5]), ["add_player", rng.choice(["call", "event"]), False]])
+        body = []
         for _ in range(rng.randint(3, 22 if big else 14)):
-            case["timeline"].append([g, rng.choice([None, 0, 0, 0.001, 0.05, 0.5, 1.0, 1.0, 2.0, 3.0]),
-                                     _gen_op(rng, False)])
+            body.append([g, rng.choice([None, 0, 0, 0.001, 0.05, 0.5, 1.0, 1.0, 2.0, 3.0]), _gen_op(rng, False)])
+        if case["pf_mode"]:
+            # a ball ended by request while it is still on the playfield; it drains some seconds later
+            for _ in range(rng.choice([0, 1, 1, 2])):
+                i = rng.randint(0, len(body))
+                body[i:i] = [[g, rng.choice([0.5, 1.0, 2.0]), ["end_ball", rng.choice(["call", "event"])]],
+                             [g, rng.choice([0.5, 1.0, 2.0, 3.0, 6.0]), ["drain", 1, 0]]]
+        case["timeline"].extend(body)
         for _ in range(rng.randint(1, 12 if big else 8)):
             case["hooks"].append([g, rng.choice(_HOOK_EVENTS), rng.choice([0, 0, 0, 1, 1, 2, 3, 4, 6]),
                                   _gen_op(rng, True)])
@@ -194,9 +212,11 @@ def run_case(case):
     elif bpg_mode == "machine_var":
         cfg["game"]["balls_per_game"] = "machine.c06_bpg"
         cfg["machine_vars"] = {"c06_bpg": {"initial_value": 3, "value_type": "int", "persist": False}}
-    orc = Oracle(b_of(0), K, HORIZONS["ball_end_s"])
+    pf_mode = bool(case.get("pf_mode", False))
+    orc = Oracle(b_of(0), K, HORIZONS["ball_end_s"], HORIZONS["ball_start_after_playfield_empty_s"])
     obs = {"hook_ops": 0, "top_ops": 0, "holds": 0, "hold_secs_x10": 0, "saves": 0, "loop_iterations": 0,
-           "roster_exceeded_max_players": 0, "final_drains": 0}
+           "roster_exceeded_max_players": 0, "final_drains": 0, "physical_playfield_cases": int(pf_mode),
+           "final_end_ball_fallbacks": 0}
     shape_hooks, shape_top = set(), []
 
     hooks, holds, timeline = {}, {}, {}
@@ -213,9 +233,24 @@ def run_case(case):
         m = vm.machine
         ev = m.events
         gmode = m.modes["game"]
-        m.playfield.add_ball = lambda **kwargs: None      # no devices: nothing is physically ejected
+        pf = m.playfield
         m.ball_controller.num_balls_known = K
-        st = {"g": -1, "occ": {}, "deny": 0, "saves": []}
+        st = {"g": -1, "occ": {}, "deny": 0, "saves": [], "pf_pending": 0}
+
+        def pf_put(n):
+            pf.balls += n
+            pf.available_balls += n
+            orc.playfield(pf.available_balls, vm.loop.time())
+
+        if pf_mode:
+            # physical playfield, as in MpfFakeGameTestCase.start_game
+            pf.add_ball = lambda **kwargs: pf_put(1)
+            orc.playfield(pf.available_balls, vm.loop.time())
+        else:
+            pf.add_ball = lambda **kwargs: None      # no devices: nothing is physically ejected
+
+        def pf_free():
+            return pf.available_balls - st["pf_pending"]
 
         def now():
             return vm.loop.time()
@@ -238,17 +273,33 @@ def run_case(case):
         vm.loop._run_once = run_once
 
         # ---- requests ------------------------------------------------------------------------
+        def post_drain(n, saved):
+            if pf_mode:
+                n = min(n, pf_free())       # only balls which are on the playfield can drain
+                if n <= 0:
+                    return False
+                st["pf_pending"] += n
+            st["saves"].append(min(saved, n))
+            ev.post_relay("ball_drain", balls=n, _c06_n=n)
+            return True
+
         def do_op(op):
             kind = op[0]
+            if pf_mode and kind in ("slam", "tilt"):
+                return
             if kind == "drain":
-                st["saves"].append(op[2])
-                ev.post_relay("ball_drain", balls=op[1])
+                post_drain(op[1], op[2])
             elif kind == "add_balls":
                 g = m.game
-                if g is not None:
-                    g.balls_in_play += op[1]
+                n = op[1]
+                if pf_mode:
+                    n = min(n, K - pf.available_balls)
+                if g is not None and n > 0:
+                    if pf_mode:
+                        pf_put(n)
+                    g.balls_in_play += n
                     if orc.active():
-                        orc.ball_op("add", op[1], now())
+                        orc.ball_op("add", n, now())
             elif kind == "extra_ball":
                 g = m.game
                 if g is not None and g.player:
@@ -300,6 +351,16 @@ def run_case(case):
                 orc.ball_op("drain", balls - s, now())
             return {"balls": balls - s}
         ev.add_handler("ball_drain", on_drain, priority=10 ** 9)
+
+        def on_drain_done(balls=0, **kwargs):
+            # the unsaved balls have left the playfield (saved ones are still on it)
+            if pf_mode:
+                st["pf_pending"] = max(0, st["pf_pending"] - kwargs.get("_c06_n", 0))
+                n = min(balls, pf.available_balls)
+                pf.balls -= n
+                pf.available_balls -= n
+                orc.playfield(pf.available_balls, now())
+        ev.add_handler("ball_drain", on_drain_done, priority=-10 ** 9)
 
         def on_add_request(**kwargs):
             if st["deny"] > 0 and orc.N >= 1:
@@ -402,13 +463,23 @@ def run_case(case):
                     shape_top.append(op[0][:3] if op[0] != "end_game" else "eg")
                     do_op(op)
                 # final phase: drain whatever is in play until the game is over
-                limit = 2 * (B * max(4, orc.N + 1) + n_awards) + 30
+                limit = (4 if pf_mode else 2) * (B * max(4, orc.N + 1) + n_awards) + 30
                 for _ in range(limit):
                     if not orc.active():
                         break
-                    if orc.ball == "live":
+                    if not pf_mode:
+                        if orc.ball == "live":
+                            obs["final_drains"] += 1
+                            post_drain(K, 0)
+                    elif pf_free() > 0:
+                        # drain what is on the playfield (the live ball, or one left over by an end request)
                         obs["final_drains"] += 1
-                        ev.post_relay("ball_drain", balls=K)
+                        post_drain(pf_free(), 0)
+                    elif orc.ball == "live" and m.game is not None:
+                        # nothing physical to drain (should not happen): keep the game going by request
+                        obs["final_end_ball_fallbacks"] += 1
+                        orc.request("end_ball", now())
+                        m.game.end_ball()
                     adv(HORIZONS["final_drain_step_s"])
                 orc.clauses["game_progress"] += 1
                 if orc.active():
@@ -433,7 +504,8 @@ def run_case(case):
     cl = orc.clauses
     nontrivial = (orc.obs["games_ended"] >= 1 and obs["hook_ops"] >= 1 and cl["turn_order"] > 0 and
                   cl["ball_end_cause"] > 0 and cl["grammar"] > 0)
-    shape = "B%s%sM%dK%dG%d|%s|%s" % ("".join(str(b_of(g)) for g in range(case["games"])), bpg_mode[0],
+    shape = "%sB%s%sM%dK%dG%d|%s|%s" % ("P" if pf_mode else "", "".join(str(b_of(g)) for g in range(case["games"])),
+                                        bpg_mode[0],
                                       case["max_players"], K, case["games"], ",".join(sorted(shape_hooks)),
                                       "".join(shape_top)[:60])
     # unknown/unexplained signatures first
